@@ -261,14 +261,55 @@ def grid_case(draw, H, kinds):
     c["shape"] = draw(st.sampled_from(["descending", "descending", "descending-nonuniform", "ascending", "ascending-nonuniform", "two-node-descending", "zero-span"]))
     c["t0"] = draw(st.sampled_from([0.0, 0.0, 0.5, -0.3]))
     c["span"] = draw(st.floats(0.3, 2.0))
-    c["n"] = draw(st.sampled_from([2, 3, 9, 40, 150]))
+    c["n"] = draw(st.sampled_from([2, 3, 9, 40, 40, 150, 150]))
     c["gs"] = draw(st.integers(0, 2 ** 31))
-    c["event"] = draw(st.sampled_from([False, False, True]))
+    c["event"] = draw(st.sampled_from([False, True, "active", "active", "active"]))
     return c
 
 
 def inactive_event(t, y):
     return y[0] * 0.0 + 5.0
+
+
+def active_event(t, y):
+    return y[0] - 0.07
+
+
+def _first_crossing(c, tv):
+    """First zero of g = y0 - 0.07 along the reference flow in the direction of the grid, or None.
+    Returns (t_star, gdot) only if the crossing is transversal and isolated (no other zero within 4 grid steps)."""
+    from scipy.integrate import solve_ivp
+    from scipy.optimize import brentq
+    if c["kind"] == "ham":
+        KC = hamtools.compile_terms(c["H"]["terms"]); y0 = np.array(c["x0"], float)
+        f = lambda t, y: hamtools.ham_field(KC, y)
+    else:
+        par = np.array(c["inst"]["par"], float); y0 = np.array(c["inst"]["x0"], float)
+        f = lambda t, y: tmpl_np(t, y, par)
+    sol = solve_ivp(f, (float(tv[0]), float(tv[-1])), y0, method="DOP853", rtol=1e-13, atol=1e-13, dense_output=True)
+    if not sol.success:
+        return "unusable"
+    ts = np.linspace(tv[0], tv[-1], 4001)
+    g = sol.sol(ts)[0] - 0.07
+    if abs(g[0]) < 1e-3:
+        return "unusable"          # start on / next to the surface: not this property's subject (C11)
+    idx = np.nonzero(g[:-1] * g[1:] < 0)[0]
+    if len(idx) == 0:
+        if np.min(np.abs(g)) < 1e-3:
+            return "unusable"      # grazing
+        return None
+    k = int(idx[0])
+    tstar = brentq(lambda t: sol.sol(t)[0] - 0.07, ts[k], ts[k + 1], xtol=1e-14)
+    ystar = sol.sol(tstar)
+    gdot = float(f(tstar, ystar)[0])
+    hmax = float(np.max(np.abs(np.diff(tv))))
+    if abs(gdot) < 0.05:
+        return "unusable"
+    if len(idx) > 1 and abs(ts[int(idx[1])] - tstar) < 4 * hmax:
+        return "unusable"
+    if abs(tstar - tv[-1]) < 4 * hmax or abs(tstar - tv[0]) < 4 * hmax:
+        return "unusable"
+    return (float(tstar), gdot, ystar)
 
 
 def _grid_of(c):
@@ -324,6 +365,46 @@ def eval_grid(c, ctx):
     ctx.case(nontrivial=nt, cls=["grid:" + c["shape"], "grid:" + tag, "grid:" + c["kind"], "grid:event" if c["event"] else "grid:no-event"],
              sample={k: v for k, v in c.items() if k != "H"} if nt and ctx.evaluations % 40 == 0 else None)
     kw = {}
+    if c["event"] == "active":
+        # an ACTIVE event on ascending / descending grids: the first crossing in the direction of travel
+        if c["shape"] == "zero-span" or len(tv) < 9 or (c["method"] == "adaptive" and desc):
+            return
+        fc = _first_crossing(c, tv)
+        if fc == "unusable":
+            ctx.classes["grid:active-event:instance-skipped"] += 1
+            return
+        try:
+            sol = integ.integrate(sysm, y0.copy(), tv.copy(), event_fn=active_event, event_cfg=EventConfig(direction=0, terminal=True))
+        except Exception as e:
+            ctx.fail("active-event-raises:%s:%s:%s" % (tag, "descending" if desc else "ascending", type(e).__name__), c, str(e)[:200].replace("\n", " "))
+            return
+        t = np.asarray(sol.times, float); X = np.asarray(sol.states, float)
+        # accuracy budget of this method on this grid (mirrored ascending run without event)
+        try:
+            tva = tv[0] + np.abs(tv - tv[0])
+            sa = integ.integrate(sysm, y0.copy(), tva)
+            ra = _reference_grid(c, tva)
+            e_f = float(np.max(np.abs(np.asarray(sa.states, float)[:, obs] - ra))) if c["method"] != "adaptive" else 1e-8
+        except Exception:
+            e_f = float("inf")
+        if not e_f <= 1e-3:
+            ctx.classes["grid:too-coarse-for-accuracy-judgement"] += 1
+            return
+        ctx.classes["grid:active-event:%s:%s" % (tag, "descending" if desc else "ascending")] += 1
+        if fc is None:
+            if t[-1] != tv[-1]:
+                ctx.fail("spurious-event:%s:%s" % (tag, "descending" if desc else "ascending"), c, "g never crosses zero on the span but times[-1]=%r" % t[-1])
+            return
+        tstar, gdot, ystar = fc
+        tol_t = (50 * e_f + 1e-8) / abs(gdot) + 1e-8
+        if not abs(t[-1] - tstar) <= tol_t:
+            ctx.fail("event-time-wrong:%s:%s" % (tag, "descending" if desc else "ascending"), c,
+                     "first crossing of g at t*=%.12g, reported %.12g (tolerance %.3g, grid step %.3g)" % (tstar, t[-1], tol_t, float(np.max(np.abs(np.diff(tv))))))
+            return
+        gh = float(X[-1, 0] - 0.07)
+        if not abs(gh) <= abs(gdot) * tol_t + 50 * e_f + 1e-8:
+            ctx.fail("event-state-off-surface:%s:%s" % (tag, "descending" if desc else "ascending"), c, "g(y_hit)=%.3g" % gh)
+        return
     if c["event"]:
         kw = dict(event_fn=inactive_event, event_cfg=EventConfig(direction=0, terminal=True))
     try:
